@@ -112,6 +112,8 @@ type pmodel struct {
 	idxDeal  *types.Var            // the dealer-index field
 	cmap     *types.Var            // the complaints map field
 	recvFld  *types.Var            // complaint.received
+	ansFld   *types.Var            // complaint.answerReceived
+	checkFn  string                // name of the answered-complaint check (role-resolved)
 	noInline map[string]bool
 	instFields map[*types.Var]bool
 	rel      map[*ssa.Function]int
@@ -231,7 +233,11 @@ func (m *pmodel) canon(v ssa.Value, f *frame, d int) string {
 	if f != nil {
 		fid = f.id
 	}
-	return fmt.Sprintf("%s@%d", v.Name(), fid)
+	it := 0
+	if ins, ok := v.(ssa.Instruction); ok && m.cur != nil && ins.Block() != nil {
+		it = m.cur.visits[fmt.Sprintf("%d:%d", fid, ins.Block().Index)]
+	}
+	return fmt.Sprintf("%s@%d.%d", v.Name(), fid, it)
 }
 
 func (m *pmodel) isInstanceField(fld *types.Var) bool {
@@ -328,15 +334,13 @@ func (m *pmodel) evalBool(v ssa.Value, f *frame, p *pstate, prev *ssa.BasicBlock
 				if k, ok := m.tracked[fld]; ok {
 					return tri(p.st[k])
 				}
-				// c.received where c is the own complaint record
-				if fld == m.recvFld {
-					if ex, ok := fa.X.(*ssa.Extract); ok {
-						if lk, ok := ex.Tuple.(*ssa.Lookup); ok && m.isComplaintsMap(lk.X) {
-							kc := m.keyClass(p, m.canon(lk.Index, f, 0))
-							if kc == tT {
-								return tri(p.st["ownComplaint"])
-							}
+				// fields of the own complaint record
+				if fld == m.recvFld || fld == m.ansFld {
+					if m.ownRecordPtr(fa.X, f, p, 0) == tT {
+						if fld == m.recvFld {
+							return tri(p.st["ownComplaint"])
 						}
+						return tri(p.st["ownAns"])
 					}
 				}
 			}
@@ -388,8 +392,8 @@ func (m *pmodel) evalBool(v ssa.Value, f *frame, p *pstate, prev *ssa.BasicBlock
 	case *ssa.Extract:
 		// ok of a lookup in the complaints map with the own key
 		if lk, ok := x.Tuple.(*ssa.Lookup); ok && x.Index == 1 && m.isComplaintsMap(lk.X) {
-			if m.keyClass(p, m.canon(lk.Index, f, 0)) == tT && p.st["ownComplaint"] == 1 {
-				return tT
+			if m.keyClass(p, m.canon(lk.Index, f, 0)) == tT {
+				return tri(p.st["ownExists"])
 			}
 		}
 	case *ssa.Phi:
@@ -403,6 +407,49 @@ func (m *pmodel) evalBool(v ssa.Value, f *frame, p *pstate, prev *ssa.BasicBlock
 	}
 	if t, ok := p.assume[m.valKey(v, f)]; ok {
 		return t
+	}
+	return tU
+}
+
+// ownRecordPtr: does the pointer value denote the complaint record stored under the instance's own index?
+func (m *pmodel) ownRecordPtr(v ssa.Value, f *frame, p *pstate, d int) tri {
+	if d > 6 {
+		return tU
+	}
+	switch x := v.(type) {
+	case *ssa.Extract:
+		switch t := x.Tuple.(type) {
+		case *ssa.Lookup:
+			if m.isComplaintsMap(t.X) && x.Index == 0 {
+				return m.keyClass(p, m.canon(t.Index, f, 0))
+			}
+		case *ssa.Next:
+			if rg, ok := t.Iter.(*ssa.Range); ok && m.isComplaintsMap(rg.X) && x.Index == 2 {
+				return m.keyClass(p, m.canon(&ssa.Extract{Tuple: t, Index: 1}, f, 0))
+			}
+		}
+	case *ssa.Lookup:
+		if m.isComplaintsMap(x.X) {
+			return m.keyClass(p, m.canon(x.Index, f, 0))
+		}
+	case *ssa.Alloc:
+		// a fresh record that this function installs in the map under the own index
+		for _, ref := range *x.Referrers() {
+			if mu, ok := ref.(*ssa.MapUpdate); ok && mu.Value == ssa.Value(x) && m.isComplaintsMap(mu.Map) {
+				return m.keyClass(p, m.canon(mu.Key, f, 0))
+			}
+		}
+	case *ssa.Phi:
+		if j, ok := p.phiEdge[m.valKey(x, f)]; ok {
+			return m.ownRecordPtr(x.Edges[j], f, p, d+1)
+		}
+	case *ssa.Parameter:
+		if f != nil {
+			i := paramIndex(f.fn, x)
+			if i >= 0 && i < len(f.args) && f.args[i].v != nil {
+				return m.ownRecordPtr(f.args[i].v, f.args[i].f, p, d+1)
+			}
+		}
 	}
 	return tU
 }
@@ -477,7 +524,11 @@ func (m *pmodel) block(b *ssa.BasicBlock, prev *ssa.BasicBlock, start int, f *fr
 	if start == 0 {
 		vk := fmt.Sprintf("%d:%d", f.id, b.Index)
 		p.visits[vk]++
-		if p.visits[vk] > m.unroll+1 {
+		bound := m.unroll + 1
+		if ifi, ok := b.Instrs[len(b.Instrs)-1].(*ssa.If); ok && m.complaintsRangeNext(ifi.Cond) != nil {
+			bound = 4 // own record, one other record, exit
+		}
+		if p.visits[vk] > bound {
 			return // loop bound reached on this path: cut (the other branch of the loop test continues)
 		}
 	}
@@ -504,6 +555,23 @@ func (m *pmodel) block(b *ssa.BasicBlock, prev *ssa.BasicBlock, start int, f *fr
 			}
 		case *ssa.MapUpdate:
 			m.doMapUpdate(x, f, p)
+		case *ssa.Lookup:
+			// a lookup in the complaints map with a key that is not known to be (or not to be) the own index: explore both
+			if m.isComplaintsMap(x.X) {
+				key := m.normRole(p, m.canon(x.Index, f, 0))
+				if m.keyClass(p, key) == tU {
+					rest := i + 1
+					for _, cls := range []tri{tT, tF} {
+						q := p.clone()
+						m.cur = q
+						m.npaths++
+						q.eq[eqKey(key, "fld:"+m.idxOwn.Name())] = cls
+						q.lines = append(q.lines, fmt.Sprintf("%s key %s is own index→%s", m.w.pos(posOf(x)), shortCond(render(x.Index)), cls))
+						m.block(b, prev, rest, f, q, depth, k)
+					}
+					return
+				}
+			}
 		case *ssa.IndexAddr:
 			m.checkIndex(x.X, x, f, p)
 		case *ssa.Index:
@@ -533,6 +601,42 @@ func (m *pmodel) block(b *ssa.BasicBlock, prev *ssa.BasicBlock, start int, f *fr
 			m.block(b.Succs[0], b, 0, f, p, depth, k)
 			return
 		case *ssa.If:
+			if nx := m.complaintsRangeNext(x.Cond); nx != nil {
+				// `for k, c := range complaints`: the own record (if it exists) is visited first, then at most one
+				// other record, then the loop ends
+				cnt := p.visits["rng:"+m.valKeyNoIter(nx, f)]
+				p.visits["rng:"+m.valKeyNoIter(nx, f)] = cnt + 1
+				keyCanon := m.normRole(p, m.canon(&ssa.Extract{Tuple: nx, Index: 1}, f, 0))
+				own := "fld:" + m.idxOwn.Name()
+				type alt struct {
+					take bool
+					cls  tri
+				}
+				var alts []alt
+				switch {
+				case cnt == 0 && p.st["ownExists"] == 1:
+					alts = []alt{{true, tT}}
+				case cnt <= 1:
+					alts = []alt{{true, tF}, {false, tU}}
+				default:
+					alts = []alt{{false, tU}}
+				}
+				for _, a := range alts {
+					q := p
+					if len(alts) > 1 {
+						q = p.clone()
+						m.npaths++
+					}
+					m.cur = q
+					if a.take {
+						q.eq[eqKey(keyCanon, own)] = a.cls
+						m.block(b.Succs[0], b, 0, f, q, depth, k)
+					} else {
+						m.block(b.Succs[1], b, 0, f, q, depth, k)
+					}
+				}
+				return
+			}
 			t := m.evalBool(x.Cond, f, p, prev)
 			if t == tU {
 				// map-range `next` and opaque conditions fork
@@ -598,6 +702,31 @@ func (m *pmodel) assumeCond(c ssa.Value, t tri, f *frame, p *pstate) {
 			}
 		}
 	}
+}
+
+// complaintsRangeNext: cond is `next(range(complaints))#0`.
+func (m *pmodel) complaintsRangeNext(cond ssa.Value) *ssa.Next {
+	ex, ok := cond.(*ssa.Extract)
+	if !ok || ex.Index != 0 {
+		return nil
+	}
+	nx, ok := ex.Tuple.(*ssa.Next)
+	if !ok {
+		return nil
+	}
+	rg, ok := nx.Iter.(*ssa.Range)
+	if !ok || !m.isComplaintsMap(rg.X) {
+		return nil
+	}
+	return nx
+}
+
+func (m *pmodel) valKeyNoIter(v ssa.Value, f *frame) string {
+	fid := 0
+	if f != nil {
+		fid = f.id
+	}
+	return fmt.Sprintf("%p@%d", v, fid)
 }
 
 func (m *pmodel) isNilVal(v ssa.Value, f *frame, p *pstate) tri {
@@ -700,6 +829,21 @@ func (m *pmodel) doStore(x *ssa.Store, f *frame, p *pstate) []*pstate {
 		p.effects = append(p.effects, Effect{"store", fmt.Sprintf("%s:=%d", g, v), x.Pos(), fnKey(f.fn)})
 		return nil
 	}
+	if fld == m.recvFld || fld == m.ansFld {
+		if m.ownRecordPtr(fa.X, f, p, 0) == tT {
+			t := m.evalBool(x.Val, f, p, nil)
+			if t == tU {
+				t = tT
+			}
+			k := "ownComplaint"
+			if fld == m.ansFld {
+				k = "ownAns"
+			}
+			p.st[k] = int(t)
+			p.effects = append(p.effects, Effect{"store", fmt.Sprintf("own record: %s:=%s", fld.Name(), t), x.Pos(), fnKey(f.fn)})
+		}
+		return nil
+	}
 	if m.instFields[fld] {
 		p.effects = append(p.effects, Effect{"store", "field " + fld.Name(), x.Pos(), fnKey(f.fn)})
 	}
@@ -712,37 +856,38 @@ func (m *pmodel) doMapUpdate(x *ssa.MapUpdate, f *frame, p *pstate) {
 	}
 	key := m.canon(x.Key, f, 0)
 	kc := m.keyClass(p, key)
-	// value: a fresh record with a constant `received` field
-	recv := tU
+	// value: a fresh record with constant `received` / `answerReceived` fields
+	recv, ans := tU, tU
 	fresh := false
 	if al, ok := x.Value.(*ssa.Alloc); ok {
 		fresh = true
-		recv = tF
+		recv, ans = tF, tF
 		for _, ref := range *al.Referrers() {
-			if fa, ok := ref.(*ssa.FieldAddr); ok && addrField(fa) == m.recvFld {
+			if fa, ok := ref.(*ssa.FieldAddr); ok {
 				for _, r2 := range *fa.Referrers() {
 					if st, ok := r2.(*ssa.Store); ok && st.Addr == fa {
-						recv = m.evalBool(st.Val, f, p, nil)
+						switch addrField(fa) {
+						case m.recvFld:
+							recv = m.evalBool(st.Val, f, p, nil)
+						case m.ansFld:
+							ans = m.evalBool(st.Val, f, p, nil)
+						}
 					}
 				}
 			}
 		}
 	}
-	what := fmt.Sprintf("complaints[%s] = record(fresh=%v, received=%s)", strings.TrimPrefix(key, "fld:"), fresh, recv)
+	what := fmt.Sprintf("complaints[%s] = record(fresh=%v, received=%s, answered=%s)", strings.TrimPrefix(key, "fld:"), fresh, recv, ans)
 	p.effects = append(p.effects, Effect{"mapupdate", what, x.Pos(), fnKey(f.fn)})
-	switch kc {
-	case tT:
+	if kc == tT && fresh {
+		p.st["ownExists"] = 1
 		if recv != tU {
 			p.st["ownComplaint"] = int(recv)
 		}
-	case tU:
-		// undetermined key: weak update — the own record can only be affected if the key is own; under the
-		// own-key reading a fresh record is installed only when no record with received=true existed
-		if recv == tF && p.st["ownComplaint"] == 1 {
-			// would overwrite the own complaint record: keep (the lookup that guards this path failed, so key ≠ own)
-		} else if recv == tT {
-			// someone else's complaint (or own, equal effect): no change for own unless own
+		if ans != tU {
+			p.st["ownAns"] = int(ans)
 		}
+		p.st["ownChecked"] = 0
 	}
 }
 
@@ -802,6 +947,13 @@ func (m *pmodel) doCall(ins ssa.Instruction, cc *ssa.CallCommon, f *frame, p *ps
 		}
 		k(p)
 		return
+	}
+	// the answered-complaint check applied to the own record
+	if callee.Name() == m.checkFn && len(cc.Args) >= 2 {
+		if m.keyClass(p, m.canon(cc.Args[1], f, 0)) == tT {
+			p.st["ownChecked"] = 1
+			p.effects = append(p.effects, Effect{"event", "own complaint's answer checked", ins.Pos(), fnKey(f.fn)})
+		}
 	}
 	// a tracked slice handed to a callee that indexes the parameter needs the slice allocated
 	for j, a := range cc.Args {
